@@ -152,6 +152,18 @@ CLAIMED = {
     note='Exhaustive over the modelled matrix; a raise where none is required is recorded as drift only; julia/matlab not installed.',
     technique='TLA+ guard state machine (TLC exhaustive over the support matrix), execution of every request on the real code',
     ref='6/C20'),
+
+ 'C12': dict(
+    text='spec/Expr.tla defines expression trees, exact rational evaluation and the symbolic derivative D (sum, product, quotient, '
+         'integer power, chain rule with the table for sin/cos/exp/tanh/sigmoid/log; delayed leaves as independent symbols); '
+         'spec/Jacobian.tla builds, for every model of ModelSet, J0 and one matrix per distinct delay with the column = position in '
+         'the state vector, and TLC checks D against exact symmetric difference quotients on the polynomial parts. Every model is '
+         'compiled with get_run_func and get_jacobian_func (dense/sparse, delays as parameters or literals, incl. two delays that '
+         'agree to three digits) and the matrices are compared at three points with the evaluated trees and with central '
+         'differences of the generated vector field.',
+    note='Elementary functions evaluated with their NumPy meaning in the harness (tolerances 1e-9 / 1e-5); scalar models, default backend.',
+    technique='TLA+ symbolic differentiation spec (TLC-checked on polynomial parts), replay into get_jacobian_func vs trees and differences',
+    ref='6/C12'),
 }
 
 NOT_YET = 'check not built yet in this round (planned in DESIGN.md section 6); not claimed'
